@@ -18,9 +18,9 @@ Definition scan_start (b : bytes) (K : N) : option rerr :=
   else if negb (u64_at b 20 =? RECORD_MAGIC_BYTE) then Some EMagic
   else if negb (u64_at b 28 =? K) then Some EKeySize else None.
 
-(* RawRecords::load / read_current_record. `size` is the file length. Note: after a header is accepted
-   the cursor is advanced by meta_size and data_size WITHOUT checking that it stays inside the file
-   unless data validation reads the data (finding F6). *)
+(* RawRecords::load / read_current_record. `size` is the file length. After a header is accepted the cursor is
+   advanced by meta_size; the record must then end inside the file (check added by commit 865f94b of the code;
+   before it a record cut by the end of the file was accepted whenever its data was not read back: finding F6). *)
 Fixpoint scan_loop (fuel : nat) (b : bytes) (K : N) (validate : bool) (cur : N) (acc : list header) : res (list header) :=
   match fuel with
   | O => RFail EBincode
@@ -36,6 +36,7 @@ Fixpoint scan_loop (fuel : nat) (b : bytes) (K : N) (validate : bool) (cur : N) 
           | Some e => RFail e
           | None =>
             let cur1 := cur + (57 + K) + h_msize h in
+            if N.of_nat (length b) <? cur1 + h_dsize h then RFail EBincode else
             if validate then
               match slice b cur1 (h_dsize h) with
               | None => RFail EBincode
@@ -97,7 +98,13 @@ Definition tool_read (b : bytes) (pos : N) : (header * bytes * bytes * N) + terr
           match slice b p1 (h_msize h) with
           | None => inr TIo
           | Some m =>
-            if negb (meta_ok m) then inr TMeta else
+            if negb (meta_ok m) then
+              (* the header is valid, its sizes are trusted: the data is read as well, which leaves the reader behind
+                 the record, and the failure is reported as a record validation error, so that recovery with
+                 skipping steps over it (code commit "recovery steps over a record whose metadata does not decode";
+                 before it the bincode error ended the recovery: finding F23) *)
+              match slice b (p1 + h_msize h) (h_dsize h) with None => inr TIo | Some _ => inr TRecordValidation end
+            else
             match slice b (p1 + h_msize h) (h_dsize h) with
             | None => inr TIo
             | Some d => if crc32c d =? h_dcrc h then inl (h, m, d, p1 + h_msize h + h_dsize h)
@@ -124,8 +131,13 @@ Definition tool_validate_blob (b : bytes) : bool :=
 
 (* recovery_blob: copy records until the first unreadable one; with skip_wrong, one bad record may be
    stepped over (by its own sizes when only its header checksum/magic is wrong, or directly when only its
-   data checksum is wrong). The writer re-serialises header (UNCHANGED, including blob_offset), meta, data. *)
-Definition rec_out (h : header) (m d : bytes) : bytes := encode_header h ++ m ++ d.
+   data checksum is wrong). The writer re-serialises header, meta, data; BlobWriter::write_record stamps the
+   position in the OUTPUT file into the header and refreshes the header checksum when it differs (commit 34bfd5d of
+   the code; before it the header was copied unchanged and records behind a skipped one kept stale offsets: F7). *)
+Definition stamp (h : header) (off : N) : header :=
+  if h_off h =? off then h else let h1 := with_off h off in with_hcrc h1 (header_crc h1).
+Definition rec_out (out : bytes) (h : header) (m d : bytes) : bytes :=
+  encode_header (stamp h (N.of_nat (length out))) ++ m ++ d.
 
 (* position reached after a failed read when the tool may step over the record; None = give up *)
 Definition skip_pos (b : bytes) (pos : N) (e : terr) : option N :=
@@ -152,13 +164,13 @@ Fixpoint tool_recover_loop (fuel : nat) (b : bytes) (skip : bool) (pos : N) (out
   | S f =>
     if pos <? N.of_nat (length b) then
       match tool_read b pos with
-      | inl (h, m, d, p') => tool_recover_loop f b skip p' (out ++ rec_out h m d)
+      | inl (h, m, d, p') => tool_recover_loop f b skip p' (out ++ rec_out out h m d)
       | inr e =>
         if skip then
           match skip_pos b pos e with
           | Some p1 =>
             match tool_read b p1 with
-            | inl (h, m, d, p') => tool_recover_loop f b skip p' (out ++ rec_out h m d)
+            | inl (h, m, d, p') => tool_recover_loop f b skip p' (out ++ rec_out out h m d)
             | inr _ => out
             end
           | None => out
